@@ -32,6 +32,13 @@ def run(tier):
             gstates += g['distinct']
             gtrans += g['generated']
             gens.append({'module': mod, 'cfg': cfgt % 'quick', 'distinct_states': g['distinct'], 'cases': len(take)})
+        for gm in ('Gen_Mods',):
+            g, st = flow.generate(work, gm, gm + '.cfg')
+            for s in st:
+                cases.append({'api': 'datetime', 'text': s['c']['text'], 'culture': s['c']['culture'], 'ref': s['c']['ref'], 'src': 'generated:' + gm})
+            gstates += g['distinct']
+            gtrans += g['generated']
+            gens.append({'module': gm, 'cfg': gm + '.cfg', 'distinct_states': g['distinct'], 'cases': len(st)})
         g, st = flow.generate(work, 'Gen_BadDates', 'Gen_BadDates.cfg')
         for s in st:
             cases.append({'api': 'datetime', 'text': s['c']['text'], 'culture': s['c']['culture'], 'ref': s['c']['ref'], 'src': 'generated:Gen_BadDates'})
